@@ -235,3 +235,45 @@ def c10(prop, tier, t0):
         "the same key given twice (by name and by hex code) is not generated (map iteration would decide the winner)",
         "offsets on type=action axes and channel_offset_negative on pitch_bend axes are not compared",
     ], t0)
+
+
+@check("C12")
+def c12(prop, tier, t0):
+    binary, bt = vlib.build("c12")
+    base = tempfile.mkdtemp(prefix="verif_c12_")
+    d = tempfile.mkdtemp(prefix="vres_", dir=vlib.BUILD)
+    try:
+        jobs = []
+        for i in range(vlib.NCPU):
+            res = os.path.join(d, "r%d.json" % i)
+            jobs.append(([binary, "-out", res, "-shard", str(i), "-nshards", str(vlib.NCPU), "-tier", tier, "-scratch", os.path.join(base, "s%d" % i)], res))
+        m = vlib.merge(vlib.run_jobs(jobs))
+    finally:
+        _shutil.rmtree(base, ignore_errors=True)
+        _shutil.rmtree(d, ignore_errors=True)
+    cov = generic_cov(m, "generated hidi-config trees in a scratch directory: all 2^8 presence combinations of {user,factory} x {keyboard,gamepad} x {exact,default} files x identifier matching/not matching x junk sets "
+                         "(broken TOML, valid TOML failing validation, date-typed value, .txt, name without dot, nested directories, upper-case broken), and every assignment of {present, missing, replaced by a file, dangling symlink} "
+                         "to the four directories x presence masks; real LoadDeviceConfigs, then FindConfig for keyboard / joystick / mouse / unknown devices against a reference lookup chain. "
+                         "evaluations = FindConfig calls + failed loads; distinct_nontrivial = distinct (device type, selected source) outcomes and load-error kinds.",
+                      {"build_s": round(bt, 1)})
+    return vlib.finish(prop, tier, "exploration", m, cov, [
+        "checks run as root: permission-denied directories cannot be simulated",
+        "two files with the same identifier in one directory are not generated (the later file in walk order wins)",
+        "a missing/unusable directory may be answered with an error from LoadDeviceConfigs or be counted as empty",
+    ], t0)
+
+
+@check("C20")
+def c20(prop, tier, t0):
+    binary, bt = vlib.build("c20")
+    m = vlib.merge(sharded(binary, tier, vlib.NCPU))
+    cov = generic_cov(m, "all multisets of <=4 handlers over 9 capability classes (one per branch of HandlerType) x 3 physical locations (incl. the empty one), each in EVERY permutation of the discovery slice, through the real input.Normalize "
+                         "(handlers cannot be opened); result canonicalised (devices sorted by location, members as sets) and compared with: partition of the input, same device iff same location, type = joystick if any member is "
+                         "joystick-like else keyboard if any is a standard keyboard else not playable, identical for all permutations (ID compared when all members of a location share it). evaluations = Normalize calls; "
+                         "distinct_nontrivial = distinct expected groupings.", {"build_s": round(bt, 1)})
+    return vlib.finish(prop, tier, "exploration", m, cov, [
+        "which capability set counts as joystick-like / standard keyboard is taken from the code's own HandlerType; the check is about grouping, aggregation and order independence",
+        "Device.ID is compared across orders only when all handlers of a location report the same InputID (thorough also runs with per-handler IDs, ID then not compared)",
+        "iteration order of the grouping map only affects the order of the returned slice, which the canonical form sorts away; Go randomises it per call, it is not enumerated",
+        "more than 4 handlers per discovery batch are not enumerated",
+    ], t0)
